@@ -67,6 +67,44 @@ CHECKS = {
         'prefixes (field present, structure not complete) may report 0 or '
         'the size.',
         'DESIGN.md section 4 C07'),
+    'C08': (
+        'reference model (independent recursion over generated nested '
+        'mappings) + before/after deep snapshot, Hypothesis recursive strategy',
+        'exploration',
+        'Nested mappings of depth <= 4 / width <= 5 over dict, OrderedDict, '
+        'MappingProxyType and a hand-written Mapping, keys str (every pinned '
+        'sanitize key embedded in every case/position, near-misses), int, '
+        'tuple, bytes, None; values str/bytes/numbers/None/lists/mappings; '
+        'result compared with an independent recursion, argument snapshotted '
+        'before and compared after, TypeError for non-mappings. Sampled.',
+        'Plain string values use the real mask_password as reference (C04 '
+        'owns it); the 35 sanitize keys are pinned in the harness.',
+        'DESIGN.md section 4 C08'),
+    'C12': (
+        'round trips + integer-microsecond reference model, boundary-aimed '
+        'generation, exhaustive minute offsets',
+        'exploration',
+        'All 2879 minute offsets are enumerated for normalize/isoformat/'
+        'comparisons; datetimes over the representable range x zones x '
+        'second counts placed exactly on and 1 us either side of the '
+        'comparison boundary x override instants are sampled with '
+        'Hypothesis; marshalling and the overridden clock (direct and '
+        'TimeFixture) are compared with integer-microsecond arithmetic.',
+        'Trusts the integer-microsecond model and the stdlib datetime/'
+        'zoneinfo; sub-microsecond second counts are not generated.',
+        'DESIGN.md section 4 C12'),
+    'C20': (
+        'differential against whole-content computation (hashlib, slicing) + '
+        'exhaustive errno injection',
+        'exploration',
+        'Contents of sizes around every chunk-size multiple x chunk sizes x '
+        'algorithms against hashlib; last_bytes against slicing; '
+        'write_to_tempfile over directory depths and pre-existing files; '
+        'every errno of errno.errorcode injected into os.makedirs and the '
+        'remove= callable (exhaustive), same-object propagation otherwise.',
+        'Scratch files under /dev/shm; a collaborator that is not invoked '
+        'is reported as seam_unreachable rather than judged.',
+        'DESIGN.md section 4 C20'),
     'C13': (
         'model-based testing: exhaustive short histories + Hypothesis '
         'rule-based state machine against a reference model',
